@@ -278,7 +278,7 @@ func (g *G) paramType() *Type {
 
 // genFunc creates one top-level helper function.
 func (g *G) genFunc() {
-	name := g.fresh("f")
+	name := g.fresh("fn")
 	f := &Fn{Name: name, Pure: g.chance(2, 3, "pure")}
 	for i, n := 0, g.n(0, 3, "nparams"); i < n; i++ {
 		pt := g.paramType()
@@ -331,7 +331,7 @@ func (g *G) genRecursive() {
 	head := tf("%s%s(%s)%s", tl("func ", "函数·", "func "), name, paramList(f.Params), resultList(f.Results, nil))
 	g.decls = append(g.decls, block(head, body))
 	// callers pass a small constant depth: wrap as a 1-parameter pure function
-	w := &Fn{Name: g.fresh("f"), Pure: true, Params: []*Var{{Name: "a", T: t}}, Results: []*Type{t}}
+	w := &Fn{Name: g.fresh("fn"), Pure: true, Params: []*Var{{Name: "a", T: t}}, Results: []*Type{t}}
 	depth := g.n(0, 9, "recDepth")
 	whead := tf("%s%s(%s)%s", tl("func ", "函数·", "func "), w.Name, paramList(w.Params), resultList(w.Results, nil))
 	g.decls = append(g.decls, block(whead, tf("%s %s(%d, a)", tl("return", "返回", "return"), name, depth)))
@@ -404,7 +404,7 @@ func (g *G) stDefer() Tri {
 	kw := tl("defer", "押后", "defer")
 	if g.coin("deferPrint") {
 		t := scalarTypes[g.n(0, len(scalarTypes)-1, "dT")]
-		return tf("%s %s", kw, printCall(same(`"deferred"`), g.gen(t, 2).E))
+		return tf("%s %s", kw, printCall(same(`"deferred"`), g.ifaceArg(t, 2)))
 	}
 	ft := &Type{K: KFunc}
 	if g.coin("deferArg") {
@@ -500,7 +500,7 @@ func replaceIdent(s, old, new string) string {
 		return c == '_' || c >= '0' && c <= '9' || c >= 'a' && c <= 'z' || c >= 'A' && c <= 'Z' || c >= 0x80
 	}
 	for i := 0; i < len(s); {
-		if strings.HasPrefix(s[i:], old) && (i == 0 || !isId(s[i-1])) && (i+len(old) == len(s) || !isId(s[i+len(old)])) {
+		if strings.HasPrefix(s[i:], old) && (i == 0 || !isId(s[i-1])) && (i+len(old) == len(s) || !isId(s[i+len(old)]) || strings.HasPrefix(s[i+len(old):], "·")) {
 			b.WriteString(new)
 			i += len(old)
 			continue
